@@ -50,11 +50,12 @@ where
     let nbrs = graph.get_successors_or_neighbors(v.clone());
     let (clustering_v, potential) = nbrs
         .into_iter()
+        .filter(|n| n.name != v) // a self-loop does not make a node its own neighbor
         .combinations(2)
         .map(|c| {
             get_coefficient_for_combination(v.clone(), c[0].name.clone(), c[1].name.clone(), graph)
         })
-        .fold((0, 0), |acc: (usize, usize), v: (usize, usize)| {
+        .fold((0, 0), |acc: (usize, isize), v: (usize, isize)| {
             (acc.0 + v.0, acc.1 + v.1)
         });
     match potential > 0 {
@@ -63,7 +64,7 @@ where
     }
 }
 
-fn get_coefficient_for_combination<T, A>(v: T, u: T, w: T, graph: &Graph<T, A>) -> (usize, usize)
+fn get_coefficient_for_combination<T, A>(v: T, u: T, w: T, graph: &Graph<T, A>) -> (usize, isize)
 where
     T: Hash + Eq + Clone + Ord + Display + Send + Sync,
     A: Clone + Send + Sync,
@@ -79,11 +80,14 @@ where
         false => squares + 1,
         true => squares + 2,
     };
-    let potential = (u_nbrs.len() - degm) + (w_nbrs.len() - degm) + squares;
+    // signed: on a directed graph `u` and `w` need not have `degm` successors
+    let potential = (u_nbrs.len() as isize - degm as isize)
+        + (w_nbrs.len() as isize - degm as isize)
+        + squares as isize;
     (squares, potential)
 }
 
-/// Returns successor or neighbor node names, as a HashSet.
+/// Returns successor or neighbor node names, without the node itself, as a HashSet.
 #[inline]
 fn gnos<T, A>(nn: T, graph: &Graph<T, A>) -> HashSet<T>
 where
@@ -91,8 +95,9 @@ where
     A: Clone + Send + Sync,
 {
     graph
-        .get_successors_or_neighbors(nn)
+        .get_successors_or_neighbors(nn.clone())
         .into_iter()
         .map(|n| n.name.clone())
         .collect::<HashSet<T>>()
+        .without(&nn)
 }
